@@ -473,6 +473,9 @@ func evalC08Filter(c c08Filter, o *Obs) error {
 		return err
 	}
 	inLen := c.FilterLen + 9 + len(c.Item)
+	for _, b := range txs {
+		inLen += b.msg.SerializeSize() // the transactions matched against the filter are input too
+	}
 	use := func(name string, f *bloom.Filter) error {
 		return guarded(name, inLen+2000, o, func() {
 			f.IsLoaded()
